@@ -28,7 +28,9 @@ CompiledExts == {"pyc", "so"}
 
 D1 == {"src", "gen", "gen2", "genx", ".hid", "sub"} \cup ExcludedDirs
 D2 == {"sub", "gen", "build", "node_modules"}
+\* (src/sub/deep: a directory BELOW one that a path-prefix directory pattern names - ignoring a directory ignores its subtree)
 DirPaths == {<<>>} \cup {<<d>> : d \in D1} \cup {<<d1, d2>> : d1 \in {"src", "gen", "build"}, d2 \in D2}
+            \cup {<<"src", "sub", "deep">>}
 Names == {[stem |-> "a", ext |-> "py"], [stem |-> "keep", ext |-> "ts"], [stem |-> "a", ext |-> "pyc"],
           [stem |-> "lib", ext |-> "so"], [stem |-> "gen_notes", ext |-> "txt"],
           [stem |-> "vendor.min", ext |-> "ts"]}             \* a compound extension: vendor.min.ts
